@@ -8,6 +8,9 @@ CHECKS = {
  "C01": dict(cat="exploration", tech="bounded-exhaustive enumeration of table x point-class spaces against a long-double Cox-de Boor reference",
    text="Every case of a stated finite space (orders 0..5, six knot patterns incl. repeated/clamped/tiny-next-to-wide, minimal and larger knot counts, unit-impulse / ones / seeded coefficient tables, 1..9 dimensions with all 3^d margin/interior combinations, every structural point class incl. exact knots and their float neighbours, both precisions, NaN- and huge-poisoned padding) is evaluated through member<float|double>, operator() and the C wrapper and compared with the full tensor-product sum computed independently. Exhaustive over the alphabet, silent about values outside it.",
    note="trusted: ref/bspline_ref.hpp, tolerance rule of DESIGN Appendix B, g++/ASan/UBSan", ref="4/C01"),
+ "C02": dict(cat="exploration", tech="bounded-exhaustive enumeration of table x point x derivative-request spaces against the long-double derivative recursion",
+   text="The C01 table and point-class spaces for 1..7 dimensions; at every point every derivative bitmask (all subsets up to 4 dimensions), every lane of value+gradient in both precisions, the C gradient wrapper and ndsplineeval_deriv with per-axis derivative orders 0..order+1 (full cross product up to 2 dimensions) are compared with the exact partial derivative of the reference spline; orders above the spline order must give exactly 0. Two defects found this way are listed as known findings (exactly-on-knot cases), one was repaired.",
+   note="trusted: ref/bspline_ref.hpp derivative recursion and pre-cancellation magnitude for the tolerance", ref="4/C02"),
  "C04": dict(cat="exploration", tech="bounded-exhaustive enumeration of knot vectors x coordinate classes against an independent acceptance/bracketing specification",
    text="Complete walk of orders x knot patterns x knot counts x magnitude transforms (1e300, 1e-300, negated, consecutive denormals, +1e15) x every structural coordinate class (each knot, both float neighbours, interval points, the first knot, outside neighbours, +-inf, +-DBL_MAX, +-denormal, +-0) in 1 dimension and the full tensor of six classes per axis in 2..4 dimensions; acceptance, index range, bracketing, margin clamping, the C wrapper and operator() are checked on every case, termination by a per-case timer.",
    note="trusted: the specification predicate written in the harness; NaN excluded by the property itself", ref="4/C04"),
